@@ -198,3 +198,63 @@ def run(ck):
     narrowing_len_sweep(ck, crate("rs", "concordium_base"), re.compile(r"concordium_base::transactions::"), re.compile(r"(verify|check)[a-z_0-9]*(::\{closure#\d+\})*$"))
     eq_polarity_sweep(ck, crate("rs", "concordium_base"), re.compile(r"concordium_base::transactions::"), re.compile(r"(verify|check)[a-z_0-9]*(::\{closure#\d+\})*$"))
     rejecting_checks_floor(ck, crate("rs", "concordium_base"), re.compile(r"concordium_base::transactions::"), re.compile(r"(verify|verifier|validate|check|extract_commit_message)[a-z_0-9]*(::\{closure#\d+\})*$"), "C06")
+    builder_rules(ck)
+
+
+# energy constants of account transactions (protocol values; frozen from the pinned tree, compared by evaluated value)
+TX_COST = {"A": 100, "B": 1, "SIMPLE_TRANSFER": 300, "ENCRYPTED_TRANSFER": 27000, "TRANSFER_TO_ENCRYPTED": 600, "TRANSFER_TO_PUBLIC": 14850,
+           "ADD_BAKER": 4050, "UPDATE_BAKER_KEYS": 4050, "REMOVE_BAKER": 300, "UPDATE_BAKER_STAKE": 300, "UPDATE_BAKER_RESTAKE": 300,
+           "CONFIGURE_BAKER_WITH_KEYS": 4050, "CONFIGURE_BAKER_WITHOUT_KEYS": 300, "CONFIGURE_DELEGATION": 300, "REGISTER_DATA": 300,
+           "UPDATE_CREDENTIALS_BASE": 500, "PLT_OPERATIONS_TRANSACTIONS": 300, "PLT_TRANSFER": 100, "PLT_MINT": 50, "PLT_BURN": 50,
+           "PLT_LIST_UPDATE": 50, "PLT_PAUSE": 50}
+
+
+def builder_rules(ck):
+    """constructed transactions: declared payload size, energy and sign digest are the documented functions of the bytes"""
+    c = crate("rs", CB)
+    T = CB + "::transactions::"
+    for kn, val in sorted(TX_COST.items()):
+        k = c.consts.get(T + "cost::" + kn)
+        v = int(k["v"]) if k and k.get("v") is not None else None
+        ck.ob("CONST", T + "cost::" + kn, "protocol-value", v == val, "evaluates to %s (protocol value %d)" % (v, val), "")
+    k = c.consts.get(T + "construct::TRANSACTION_HEADER_SIZE")
+    ck.ob("CONST", T + "construct::TRANSACTION_HEADER_SIZE", "protocol-value", k is not None and str(k.get("v")) == "60",
+          "header size %s = 32 (sender) + 8 (nonce) + 8 (energy) + 4 (payload size) + 8 (expiry)" % (k.get("v") if k else None), "")
+    # base cost = B * size + A * number of signatures
+    f = getfn(ck, "rs", CB, T + "cost::base_cost")
+    if f:
+        l = None
+        for (bi, t) in f.calls(r"convert::From::from$"):
+            if t["dest"][0] == 0:
+                l = rules.lin(f, t["args"][0])
+        ck.ob("CONST", f.path, "base-cost-formula", l == ({1: 1, 2: 100}, 0),
+              "energy = B * transaction_size + A * num_signatures with A = 100, B = 1" if l == ({1: 1, 2: 100}, 0) else "base cost evaluates to the linear form %s over (size, signatures)" % (l,), f.loc())
+    # the declared payload size is the size of the encoded payload that is shipped
+    f = getfn(ck, "rs", CB, T + "construct::TransactionBuilder::new")
+    if f:
+        aggs = [(bi, st["rv"]) for bi in sorted(f.reachable()) for st in f.stmts(bi) if st.get("rv", {}).get("k") == "agg" and st["rv"].get("adt", "").endswith("transactions::TransactionHeader")]
+        ok = False
+        for (bi, rv) in aggs:
+            i = rv["fields"].index("payload_size") if "payload_size" in rv.get("fields", []) else None
+            if i is not None:
+                o = f.origins(rv["ops"][i], deep=True)
+                ok = has_call_origin(o, r"EncodedPayload::size$") and has_call_origin(o, r"Payload::encode$|PayloadLike::encode$")
+        ck.ob("DEFUSE", f.path, "payload-size-is-size-of-encoding", ok, "header.payload_size = payload.encode().size()" if ok else "the declared payload size is not the size of the encoded payload", f.loc())
+    # the digest that gets signed is computed after the last change of the header
+    n = 0
+    for p in sorted(c.paths()):
+        if not p.startswith(T + "construct::") or "{closure" in p:
+            continue
+        for b in c.get_all(p):
+            f = Fn(b)
+            hs = f.calls(r"transactions::compute_transaction_sign_hash(_v1)?$")
+            if not hs:
+                continue
+            writes = [bi for bi in f.reachable() for st in f.stmts(bi) if "lhs" in st and st["lhs"][1] and any(str(x).endswith(":header") for x in st["lhs"][1]) and len(st["lhs"][1]) >= 2]
+            writes += [bi for (bi, t) in f.calls(r".") if t.get("dest") and t["dest"][1] and any(str(x).endswith(":header") for x in t["dest"][1])]
+            n += 1
+            late = [wb for wb in writes if any(wb in f.reach_from(f.succ(hb)) for (hb, _) in hs)]
+            ck.ob("DOM", f.path, "digest-after-last-header-change", not late,
+                  "the sign digest is computed after all %d writes to the header" % len(writes) if not late else
+                  "a header field is written after (or not before) the sign digest is computed: the stored digest does not cover the final header", f.loc(late[0]) if late else f.loc(hs[0][0]))
+    ck.floor("DOM", "builder functions that compute a sign digest", n, 3)
